@@ -70,15 +70,11 @@ class Pool(explore.Scenario):
         ctx = {"d": d, "log": [], "submitted": [], "ctl_done": [], "shutdown_started": None}
         d.queue = LogDeque(ctx["log"])
         d.set_thread_count(p["workers"])
-        for k, ids in enumerate(p["submit"]):
-            def sub(ids=ids):
-                for tid in ids:
-                    d.add_task(T(ctx, tid))
-                    ctx["submitted"].append(tid)  # add_task has returned
+        def spawn_ctl():
+            ctl = p.get("ctl")
+            if not ctl:
+                return
 
-            S.spawn(sub, (), f"sub{k}")
-        ctl = p.get("ctl")
-        if ctl:
             def run_ctl():
                 for op in ctl:
                     if op[0] == "resize":
@@ -90,6 +86,18 @@ class Pool(explore.Scenario):
                         ctx["ctl_done"].append(("shutdown", r))
 
             S.spawn(run_ctl, (), "ctl")
+
+        if p.get("ctl_first"):
+            spawn_ctl()
+        for k, ids in enumerate(p["submit"]):
+            def sub(ids=ids):
+                for tid in ids:
+                    d.add_task(T(ctx, tid))
+                    ctx["submitted"].append(tid)  # add_task has returned
+
+            S.spawn(sub, (), f"sub{k}")
+        if not p.get("ctl_first"):
+            spawn_ctl()
 
         def fp():
             lk = d.lock
@@ -169,8 +177,18 @@ QUICK = [
     (dict(workers=1, submit=[["a"]], ctl=[["resize", 3]]), 1),
     (dict(workers=2, submit=[["a", "b"]], ctl=[["shutdown", True]]), 2),
     (dict(workers=1, submit=[["a+"]], ctl=[["shutdown", False]]), 2),
+    (dict(workers=3, submit=[["a"]], ctl=[["resize", 2], ["resize", 1]]), 1),
+    (dict(workers=3, submit=[["a"]], ctl=[["resize", 2], ["shutdown", True]]), 1),
+    (dict(workers=1, submit=[["a", "b"], ["c"]], ctl=[["shutdown", True]]), 2),
+    (dict(workers=1, submit=[["a"], ["c"]], ctl=[["shutdown", True]], ctl_first=True), 2),
 ]
 THOROUGH = [
+    (dict(workers=1, submit=[["a", "b"], ["c"]], ctl=[["shutdown", True]], ctl_first=True), 2),
+    (dict(workers=2, submit=[["a"], ["c"]], ctl=[["shutdown", True], ["resize", 1]], ctl_first=True), 2),
+    (dict(workers=3, submit=[["a"]], ctl=[["resize", 2], ["resize", 1]]), 2),
+    (dict(workers=3, submit=[["a", "b"]], ctl=[["resize", 2], ["shutdown", True]]), 2),
+    (dict(workers=1, submit=[["a", "b"], ["c"]], ctl=[["shutdown", True]]), 3),
+    (dict(workers=2, submit=[["a", "b"]], ctl=[["shutdown", True], ["resize", 1]]), 2),
     (dict(workers=1, submit=[["a", "b", "c"]]), 3),
     (dict(workers=2, submit=[["a+", "b"]]), 3),
     (dict(workers=3, submit=[["a", "b"], ["c"]]), 2),
